@@ -724,13 +724,58 @@ def check_roundtrips(ck, exe, model, tmp, cases):
             ck.sample({"config": replay["config"], "file": replay["file"][:600]})
 
 
-def check_duals(ck, exe, tmp, cases):
+def parse_dlp(line):
+    """'sense=.. n=.. m=.. cols=o,l,u;... rows=lhs,rhs,j=v,...;' (dyadic tokens, +-1e100 = infinite) -> canonical tuple"""
+    d = dict(t.split("=", 1) for t in line.split() if "=" in t)
+
+    def val(t, lo):
+        v = frac_of(t)
+        if v >= Fraction(10) ** 100:
+            return "inf"
+        if v <= -Fraction(10) ** 100:
+            return "-inf"
+        return v
+    cols = [tuple(val(t, k == 1) for k, t in enumerate(c.split(","))) for c in d.get("cols", "").split(";") if c]
+    rows, A = [], set()
+    for i, r in enumerate(x for x in d.get("rows", "").split(";") if x):
+        t = r.split(",")
+        rows.append((val(t[0], True), val(t[1], False)))
+        for e in t[2:]:
+            j, v = e.split("=")
+            if frac_of(v) != 0:
+                A.add((i, int(j), frac_of(v)))
+    return d.get("sense"), cols, rows, A
+
+
+def parse_model_dump(line):
+    d = dict(t.split("=", 1) for t in line.split() if "=" in t)
+
+    def vec(k):
+        return [t if t in ("inf", "-inf") else Fraction(t) for t in d.get(k, "").split(",") if t != ""]
+    cols = list(zip(vec("obj"), vec("lo"), vec("up")))
+    rows = list(zip(vec("lhs"), vec("rhs")))
+    A = set()
+    for e in d.get("A", "").split(";"):
+        if e:
+            i, j, v = e.split(",")
+            A.add((int(i), int(j), Fraction(v)))
+    return d.get("sense"), cols, rows, A
+
+
+def check_duals(ck, exe, tmp, cases, model=None):
     hf = os.path.join(tmp, "dual.h.cases")
     with open(hf, "w") as f:
         for cid, (c, lp) in enumerate(cases):
             f.write(case_text(str(cid), c, lp, "real"))
     rc, hout, herr = vlib.sh([exe, "dual", hf, tmp], timeout=6000)
     HB = blocks(hout)
+    # the model's dual LP (coq/DualModel.v: dual_of) for the same cases
+    MB = {}
+    if model is not None:
+        rcm, mout, merr = vlib.sh([model, "rt", hf], timeout=6000)
+        if rcm != 0:
+            ck.violation("model-crash", "model runner failed rc=%d: %s" % (rcm, merr[-400:]), {"kind": "model"}, no_input=True)
+        MB = blocks(mout)
     if rc != 0:
         ck.violation("harness-crash:dual", "the dual-writer harness died (rc=%d)" % rc, {"kind": "crash", "stderr": herr[-1500:]})
     for cid, (c, lp) in enumerate(cases):
@@ -743,6 +788,16 @@ def check_duals(ck, exe, tmp, cases):
         if hb.get("WRITE", "").startswith("CRASH"):
             ck.violation("dual-writer-crash:%s" % c["fmt"], "writeDualFileReal(\"x.%s\") crashes: %s" % (c["fmt"], hb.get("WRITE")), replay)
             continue
+        # exact correspondence of buildDualProblem with the Coq model dual_of
+        mb = MB.get(str(cid))
+        if mb is not None and "DUAL" in mb and hb.get("DLP", "").startswith("sense="):
+            hi, mo = parse_dlp(hb["DLP"]), parse_model_dump(mb["DUAL"])
+            ck.count("dual:model-compared")
+            if hi != mo:
+                what = [k for k, a, b in zip(("sense", "columns", "row sides", "matrix"), hi, mo) if a != b]
+                ck.violation("dual-model-mismatch:%s" % "+".join(what).replace(" ", "-"),
+                             "buildDualProblem and coq/DualModel.v (dual_of) differ in %s: implementation %s, model %s" % (", ".join(what), str(hi)[:600], str(mo)[:600]),
+                             dict(replay, correspondence="DualModel.dual_of vs SPxLPBase::buildDualProblem", implementation=hb["DLP"], model=mb["DUAL"]), no_input=True)
         if hb.get("WRITE") != "ok" or hb.get("READ") != "ok":
             ck.violation("dual-file:%s" % c["fmt"], "writeDualFileReal / reading the dual file fails: write=%s read=%s" % (hb.get("WRITE"), hb.get("READ")), replay)
             continue
@@ -867,7 +922,7 @@ def main():
             if "lp" in rp and "config" in rp:
                 one = [(dict(rp["config"]), lp_from_json(rp["lp"]))]
                 if rp.get("dual"):
-                    check_duals(ck, exe, tmp, one)
+                    check_duals(ck, exe, tmp, one, model)
                 else:
                     check_roundtrips(ck, exe, model, tmp, one)
             ck.finish()
@@ -901,7 +956,7 @@ def main():
         for k in range(150 if quick else 2000):
             dcases.append(({"fmt": ck.rng.choice(["lp", "mps"]), "mode": "real", "names": 0, "wzo": ck.rng.randrange(2), "unscale": 1, "scale": 0,
                             "family": "dual"}, rnd_bounded_lp(ck.rng)))
-        check_duals(ck, exe, tmp, dcases)
+        check_duals(ck, exe, tmp, dcases, model)
     finally:
         if not os.environ.get("VERIF_KEEP"):
             shutil.rmtree(tmp, ignore_errors=True)
